@@ -584,6 +584,8 @@ class Scheduler:
                 two = r.sample(scal, 2)
                 return {"op": "set_value_cat", "a": a, "ps": two, "v": [G.rnum(r), G.rnum(r)]}
             v = G.positive_value(r) if sp.T == ["par", p] else G.gen_value(r, sp.sym(p), N)
+            if sp.sym(p).get("node_only"):
+                v = G.node_only_value(r, sp, sp.sym(p))
             return {"op": "set_value", "a": a, "p": p, "v": v}
         if k == "set_initial":
             tg = G.guess_targets(sp)
@@ -629,13 +631,26 @@ class Scheduler:
             return self.maybe_remethod([o], a, sp, st)
         if k == "method":
             m = G.gen_method(r, cfg, sp, N=N if cfg["keepN"] else None)
+            g0 = (sp.method or {}).get("grid") or {}
+            if g0.get("cls") == "DenseEdges" and r.random() < 0.7:
+                # placed: same family of grid, other shape parameters (rockit caches computed grids)
+                m["grid"] = {"cls": "DenseEdges", "multiplier": G.pick(r, [x for x in (2, 5, 10) if x != g0.get("multiplier")]),
+                             "edge_frac": G.pick(r, [0.1, 0.2, 0.3])}
             out = [{"op": "method", "a": a, "m": m}]
             if m["N"] != N:
                 out += self.fixups(a, sp, m["N"])
             return out
         if k == "solver":
             sv = G.gen_solver(r, cfg)
-            return self.maybe_remethod([{"op": "solver", "a": a, "name": sv[0], "opts": sv[1]}], a, sp, st)
+            d = {"op": "solver", "a": a, "name": sv[0], "opts": sv[1]}
+            if r.random() < 0.5:
+                d["reuse"] = True  # same options dict object, updated in place
+                if sp.solver and sp.solver[0] == sv[0] and r.random() < 0.7:
+                    # a small change of one option of the current settings
+                    o2 = jcopy(sp.solver[1])
+                    o2["ipopt.max_iter" if sv[0] == "ipopt" else "max_iter"] = r.choice([0, 1, 2, 3, 5, 8])
+                    d["opts"] = o2
+            return self.maybe_remethod([d], a, sp, st)
         if k == "set_T":
             if sp.T[0] == "par":
                 return None
@@ -725,6 +740,8 @@ class Scheduler:
             s = sp.sym(p)
             if s.get("grid", "") and not isinstance(raw_value(sp.values.get(p, 0)), (int, float)):
                 out.append({"op": "set_value", "a": a, "p": p, "v": G.gen_value(self.r, s, N)})
+                # (a node-only parameter gets fresh samples with its next set_value; until then its values are
+                #  plain numbers, which the constants oracle notices and skips)
         for x, g in sp.initial:
             if g[0] == "arr" and x not in ("T", "t0"):
                 s = sp.sym(x)
